@@ -73,8 +73,8 @@ CHECKS = {
  "C14": dict(
     level="model_checking", ref="DESIGN.md §4 C14",
     technique="TLA+ spec Version (Compatible/Parse/ShouldEnable + code-shaped layer) checked exhaustively by TLC; exported cases replayed on version_parse/version_is_compatible/ovni_version_check_str/ovni_thread_require and on ovniemu (require versions, model enabling)",
-    text="TLC enumerates all (want, have) triples over 0..3, all strings up to length 6/7 over a 6-character alphabet and all (events, requires, -a) configurations of 8 models (half of them with decoy names in the require table that extend a model name) with 18 invariants and 5 refuted negative configurations; >100k exported cases are replayed on the real runtime functions and the emulator.",
-    note="Strings whose only irregularity is undefined by the property (empty components, 4th component, strtol spellings) are Unspecified."),
+    text="TLC enumerates all (want, have) triples over 0..3, all strings up to length 6/7 over a 6-character alphabet and all (events, requires, -a) configurations of 8 models (half of them with decoy names in the require table that extend a model name) with 18 invariants and 6 refuted negative configurations; >100k exported cases are replayed on the real runtime functions and the emulator.",
+    note="The grammar is N.N.N with an optional -suffix; everything else is malformed (fixed defect: the pinned parser read empty components, a 4th component and strtol spellings leniently). Numbers of 10+ digits are Unspecified."),
  "C15": dict(
     level="model_checking", ref="DESIGN.md §4 C15",
     technique="TLA+ spec SystemOps/System (property layer = function of the union of metadata; implementation layer = sequential first-come merge) checked by TLC over all distributions/orders/contradictions; exported cases materialised and run through ovniemu (verdict, signal, thread.row/cpu.row)",
